@@ -749,7 +749,7 @@ pub fn run(args: &Args, model: &mut Model) -> Report {
         }
         int_compare_corpus(&cx, &std_store, model, &mut rep);
         // operator table: every binary operator on every pair of operand kinds
-        let kinds: Vec<&str> = if args.thorough { KIND_ATOMS.to_vec() } else { KIND_ATOMS.iter().step_by(2).copied().collect() };
+        let kinds: Vec<&str> = KIND_ATOMS.to_vec();
         for (oi, _) in BIN_OPS.iter().enumerate() {
             for a in &kinds {
                 for b in &kinds {
@@ -763,7 +763,7 @@ pub fn run(args: &Args, model: &mut Model) -> Report {
         let lens: &[usize] = &[2, 3, 4];
         for &n in lens {
             let total = (BIN_OPS.len() as u64).pow(n as u32);
-            let take: u64 = if args.thorough { total } else { [0, 0, 169, 250, 300][n] };
+            let take: u64 = if args.thorough { total } else { [0, 0, 169, 700, 900][n] };
             for k in 0..take {
                 let mut p = Prng::for_case(args.seed, index);
                 index += 1;
@@ -785,7 +785,7 @@ pub fn run(args: &Args, model: &mut Model) -> Report {
             }
         }
         // larger chains, all operand kinds, nesting, assignments
-        let n_big = if args.thorough { 6000 } else { 250 };
+        let n_big = if args.thorough { 8000 } else { 600 };
         for _ in 0..n_big {
             let mut p = Prng::for_case(args.seed, index);
             index += 1;
@@ -806,7 +806,7 @@ pub fn run(args: &Args, model: &mut Model) -> Report {
             let _ = check_case(&cx, &c, model, &mut rep);
         }
         deep_nesting(&cx, model, &mut rep);
-        let n = if args.thorough { 40000 } else { 1500 };
+        let n = if args.thorough { 60000 } else { 3000 };
         for index in 1..=n {
             let mut p = Prng::for_case(args.seed, index);
             let (text, kind) = match p.below(10) {
